@@ -88,23 +88,29 @@ def pyEq : PyVal → PyVal → Bool
   | .int a, w => match w.asNum with | some q => Q.eq (Q.ofInt a) q | Option.none => false
   | .float a, w => match w.asNum with | some q => Q.eq a q | Option.none => false
   | .dec a, w => match w.asNum with | some q => Q.eq a q | Option.none => false
+termination_by structural x _ => x
 def pyEqList : List PyVal → List PyVal → Bool
   | [], w => w.isEmpty
   | x :: xs, w => match w with | y :: ys => pyEq x y && pyEqList xs ys | [] => false
+termination_by structural x _ => x
 /-- every element of the first list is `==` to some element of `b` -/
 def subsetBy : List PyVal → List PyVal → Bool
   | [], _ => true
   | x :: xs, b => b.any (fun y => pyEq x y) && subsetBy xs b
+termination_by structural x _ => x
 /-- some element of the list is `==` to `y` -/
 def anyEqL : List PyVal → PyVal → Bool
   | [], _ => false
   | x :: xs, y => pyEq x y || anyEqL xs y
+termination_by structural x _ => x
 def dictSub : List (PyVal × PyVal) → List (PyVal × PyVal) → Bool
   | [], _ => true
   | (k, v) :: rest, b => b.any (fun kv => pyEq k kv.1 && pyEq v kv.2) && dictSub rest b
+termination_by structural x _ => x
 def attrsSub : List (String × PyVal) → List (String × PyVal) → Bool
   | [], _ => true
   | (k, v) :: rest, b => b.any (fun kv => k == kv.1 && pyEq v kv.2) && attrsSub rest b
+termination_by structural x _ => x
 end
 
 /-- Python `x in xs` for a list (identity-or-`==`; identity implies `==` on this fragment). -/
